@@ -117,6 +117,13 @@ def _cause_nodes(loop: Any, which: str) -> List[int]:
             if n.kind == 'stmt' and isinstance(a, ast.Return) and a.value is not None:
                 if any(dotted(x) == f'TerminationCause.{which}' for x in ast.walk(a.value)):
                     out.append(n.id)
+            # `cause = TerminationCause.X; break` with the one `return TerminationStatistics(.., cause)` after the loop
+            elif n.kind == 'stmt' and isinstance(a, ast.Assign) and len(a.targets) == 1 and isinstance(a.targets[0], ast.Name) \
+                    and dotted(a.value) == f'TerminationCause.{which}':
+                nm_ = a.targets[0].id
+                if any(isinstance(r, ast.Return) and r.value is not None and any(isinstance(x, ast.Name) and x.id == nm_ for x in ast.walk(r.value))
+                       for r in walk_no_nested(loop.fn)):
+                    out.append(n.id)
     return out
 
 
@@ -514,7 +521,8 @@ def rule_unaligned(rep: Report, repo: Repo, cu: CUnit) -> None:
     pdefs = temp_values(dec)                 # named sub-expressions (a mask, a shift amount) are read through
     gw = inline_pure_temps(repo.func(READER_REL, 'Reader.get_word'))
     # --- C side
-    cbody = cu.body('mem_get_word_unaligned')
+    cu.inline_void_helpers("mem_get_word_unaligned", keep=[])          # a recording helper reads as the stores it makes
+    cbody = cu.body("mem_get_word_unaligned")
     cdefs: Dict[str, Any] = {}
     for n in walk(cbody):
         if n.get('kind') == 'VarDecl' and n.get('inner'):
@@ -638,12 +646,25 @@ def rule_unaligned(rep: Report, repo: Repo, cu: CUnit) -> None:
               expected='word_address << L')
     # every place of the unit that records a fault address from a WORD address (found by the store, not by the function name)
     n_fault = 0
+    # (helper, store node, stored value, the function whose parameters the value is phrased over): a store of a bare parameter
+    # in a recording helper (`mem_record_error(m, A)`) reads as a store of the argument A at each of its call sites
+    stores: List[Tuple[str, Dict[str, Any], Any]] = []
     for helper in cu.funcs:
-        params = set(cu.params(helper))
         for n in walk(cu.body(helper)):
             if not (is_assign(n) and strip(n['inner'][0]).get('kind') == 'MemberExpr' and strip(n['inner'][0]).get('name') == 'error_bit_address'):
                 continue
             ir = c_ir(n['inner'][1], cu.src_of)
+            hp = cu.params(helper)
+            if ir[0] == 'sym' and ir[1] in hp:
+                sites = [(f2, c) for f2 in cu.funcs if f2 != helper for c in walk(cu.body(f2)) if c.get('kind') == 'CallExpr' and callee(c) == helper]
+                if sites:
+                    for f2, c in sites:
+                        stores.append((f2, c, c_ir(call_args(c)[hp.index(ir[1])], cu.src_of)))
+                    continue
+            stores.append((helper, n, ir))
+    for helper, n, ir in stores:
+        params = set(cu.params(helper))
+        if True:
             if not (ir[0] == 'bin' and ir[1] in ('<<', '*')):
                 continue                      # a reset to 0 / a bit address passed through (judged by the last-word case above)
             n_fault += 1
@@ -722,33 +743,38 @@ def rule_widths(rep: Report, repo: Repo, cu: CUnit) -> None:
     # Memory_init
     accepted = set()
     ww_map: Dict[int, int] = {}
-    mask_ok = False
+    mask_vals: Dict[int, Optional[int]] = {}
     for n in walk(cu.body('Memory_init')):
         if n.get('kind') == 'IfStmt':
             ir = c_ir(n['inner'][0], cu.src_of)
             cj = lx.conjuncts(ir)
             if all(c[0] == 'cmp' and c[1] == ['!='] and c[2][0] == ('sym', 'w') for c in cj) and len(cj) > 1:
                 accepted = {c[2][1][1] for c in cj}
-        if is_assign(n) and cu.src_of(n['inner'][0]) == 'self->ww':
-            ir = c_ir(n['inner'][1], cu.src_of)
-            while ir[0] == 'cond':
-                t = ir[1]
-                if t[0] == 'cmp' and t[1] == ['=='] and t[2][0] == ('sym', 'w'):
-                    ww_map[t[2][1][1]] = ir[2][1]
-                last = ir[3]
-                ir = ir[3]
-            missing = set(ref) - set(ww_map)
-            if len(missing) == 1 and last[0] == 'num':
-                ww_map[missing.pop()] = last[1]
-        if is_assign(n) and cu.src_of(n['inner'][0]) == 'self->word_mask':
-            ir = c_ir(n['inner'][1], cu.src_of)
-            mask_ok = (ir[0] == 'cond' and lx.show(ir[1]) == '(w == 64)' and lx.show(ir[2]) in ('(~0)',)
-                       and lx.show(ir[3]) == '((1<<w)-1)')
+        # ww and word_mask: the assigned expression (a conditional chain, or a call of a pure unit-local helper that computes
+        # one) folded for every supported width
+        if is_assign(n) and cu.src_of(n['inner'][0]) in ('self->ww', 'self->word_mask'):
+            def value_of(fname_: str) -> Optional[Tuple[List[str], Any]]:
+                if fname_ not in cu.funcs:
+                    return None
+                v_ = lx.c_fn_value_ir(cu.body(fname_), cu.src_of)
+                return (cu.params(fname_), v_) if v_ is not None else None
+            ir = lx.expand_pure_calls(c_ir(n['inner'][1], cu.src_of), value_of)
+            for wv in ref:
+                try:
+                    val = lx.eval_ir(ir, {'w': wv})
+                except lx.Unrecognised:
+                    val = None
+                if cu.src_of(n['inner'][0]) == 'self->ww':
+                    if val is not None:
+                        ww_map[wv] = val
+                else:
+                    mask_vals[wv] = None if val is None else val & ((1 << 64) - 1)
     site = cu.site(cu.func('Memory_init'), 'Memory_init')
     rep.check(accepted == set(ref), 'C01.WIDTHS', 'Memory_init:accepted', f'accepts {sorted(accepted)}', site,
               expected=str(sorted(ref)))
     rep.check(ww_map == ref, 'C01.WIDTHS', 'Memory_init:ww', f'ww table {ww_map}', site, expected=str(ref))
-    rep.check(mask_ok, 'C01.WIDTHS', 'Memory_init:word_mask', 'word_mask = (w==64) ? ~0 : (1<<w)-1', site)
+    mask_ok = bool(mask_vals) and all(mask_vals.get(wv) == (1 << wv) - 1 for wv in ref)
+    rep.check(mask_ok, 'C01.WIDTHS', 'Memory_init:word_mask', f'word_mask per width {mask_vals}', site, expected='2^w - 1 for every supported width')
     # python tables
     sup = repo.const('flipjump/fjm/fjm_consts.py', 'SUPPORTED_MEMORY_WIDTHS')
     rep.check(set(sup) == set(ref), 'C01.WIDTHS', 'SUPPORTED_MEMORY_WIDTHS', f'{sorted(sup)}',
